@@ -36,7 +36,7 @@ def accept_any_clean(mo, definition=None):
 
 SPECS = {
     "C05": dict(
-        families=["fanout_ok"], policies=ALL_POLICIES, max_exec=2, accept=accept_no_failure, compare=True,
+        families=["fanout_ok", "fanout_ok", "general", "retry"], policies=ALL_POLICIES, max_exec=2, accept=accept_no_failure, compare=True,
         types=("STANDARD", "EXPRESS"),
         monitors=lambda models: [JoinMonitor()], relabel=("C05",), n_quick=2200, n_thorough=120000,
         rule="generated Parallel/Map programs (nesting to the tier's depth, item arrays of length 0..bound, every "
@@ -54,7 +54,8 @@ SPECS = {
         relabel=("C06", "C03", "C09", "C02"), n_quick=2200, n_thorough=120000,
         rule="generated non-nested Parallel/Map programs in which (by the reference model) one, several or all "
              "branches/iterations fail and the fan-out state itself has no Retry/Catch (branch-level Retry/Catch "
-             "allowed), plus a fixed probe for the recorded handled-failure finding; failure instant placed by the seeded schedule relative to sibling events, "
+             "allowed), plus 6 hand-written nested fan-out failure scenarios under every schedule policy and a fixed probe for "
+             "the recorded handled-failure finding; failure instant placed by the seeded schedule relative to sibling events, "
              "replies and timers; oracles: the execution fails with the failing branch's error, exactly one terminal "
              "notification, no state of the failed fan-out is entered and no task request is issued for it after the "
              "failure, nothing is appended to the history after the terminal event, nothing stays unacknowledged and "
@@ -200,6 +201,11 @@ def run_one(item, extra):
         kind = item[0]
         if kind == "perm":
             return run_perm(prop, item[1])
+        if kind == "nested":
+            from gen import corpus
+            cfg = E.policy_cfg(item[2])
+            cfg["execution_ttl"] = 600
+            return check(prop, corpus.nested_scenario(item[1], cfg), item[3], extra_probes={"nested-corpus": 1})
         if kind == "probe":
             mod = __import__("checks.%s" % prop.lower(), fromlist=["run_probe"])
             return mod.run_probe(item[1])
@@ -267,6 +273,11 @@ def main_for(prop, argv, extra_items=()):
     n = spec["n_quick"] if tier == "quick" else spec["n_thorough"]
     rep = common.Report(prop)
     items = list(extra_items) + list(range(n))
+    if prop == "C06":
+        from gen import corpus
+        reps = 4 if tier == "quick" else 60
+        items = [("nested", nm, pol, 100 + k) for nm in sorted(corpus.NESTED) for pol in ALL_POLICIES
+                 for k in range(reps)] + items
     extra_cov = {}
     if prop == "C05":
         pi = perm_items(4)
